@@ -59,6 +59,12 @@ class GlueEngine:
             res["status"] = "machinery"
             res["detail"] = str(e)[-1500:]
             return res
+        rin = core.replay_doc(name)
+        if rin is not None:
+            rp = replay_fn(self, tag, cfile, defs, rin, res) if replay_fn is not None else self.replay(tag, cfile, defs, rin, common, native_extra)
+            res.update(inputs=rin, replay=rp, status="violated" if rp["reproduced"] else "held",
+                       failed=[("replay", "VF recorded counterexample replayed natively")])
+            return res
         uw = self.unwindset(unwindset)
         # loops of the harness itself (concrete trip counts over buffers): bound from the harness's own sizes
         big = 8
